@@ -507,6 +507,14 @@ def _ser_int_text_ok():
     return "true" if ok else "false"
 
 
+@fact("load_py2string_latin1", "bool", "false")
+def _load_py2string_latin1():
+    """the Python-2 str opcode loads as bytes, or -- with py2str_as_py3str -- as those bytes decoded as latin-1, one character per byte, whatever the bytes are"""
+    b = [_src(n) for n in _body_nodoc(find("gateway_base.py", "Unserializer.load_py2string"))]
+    ok = b == ["as_bytes = self._read_byte_string()", "if self.py2str_as_py3str:\n    s: bytes | str = as_bytes.decode('latin-1')\nelse:\n    s = as_bytes", "self.stack.append(s)"]
+    return "true" if ok else "false"
+
+
 @fact("ser_stateless_dispatch", "bool", "false")
 def _ser_stateless_dispatch():
     """_Serializer keeps no per-object state: __init__ binds only the output list / write function, _save dispatches on
@@ -521,6 +529,16 @@ def _ser_stateless_dispatch():
     ok = ok and "if meth is None or (tp.__module__ != 'builtins' and tp is not Channel):\n            raise DumpError(" in sv
     di = _src(find("gateway_base.py", "dumps_internal"))
     ok = ok and "return _Serializer().save(obj)" in di
+    # containers hand EVERY member (keys included) to _save: no short cut past the exact-type dispatch
+    sd = [_src(n) for n in _body_nodoc(find("gateway_base.py", "_Serializer.save_dict"))]
+    ok = ok and sd == ["self._write(opcode.NEWDICT)", "for key, value in d.items():\n    self._write_setitem(key, value)"]
+    ws = [_src(n) for n in _body_nodoc(find("gateway_base.py", "_Serializer._write_setitem"))]
+    ok = ok and ws == ["self._save(key)", "self._save(value)", "self._write(opcode.SETITEM)"]
+    sl = _src(find("gateway_base.py", "_Serializer.save_list"))
+    ok = ok and "for i, item in enumerate(L):\n        self._write_setitem(i, item)" in sl and "isinstance(" not in sl
+    for nm in ("save_tuple", "_write_set"):
+        t = _src(find("gateway_base.py", "_Serializer." + nm))
+        ok = ok and "self._save(item)" in t and "isinstance(" not in t
     return "true" if ok else "false"
 
 
@@ -613,6 +631,10 @@ def _pool_structure_ok():
     ok = ok and len(w) == 1 and "if not self._running" in w[0] and "self._waitall_events.append(" in w[0] and ".wait(" not in w[0] and ".wait(timeout=timeout)" in unparse(wa)
     rr = unparse(find("gateway_base.py", "Reply.run"))
     ok = ok and "finally:" in rr and "self._result_ready.set()" in rr
+    # Reply.run keeps EVERY exception of the task for get() and lets none escape (the bookkeeping of _perform_spawn and of the
+    # primary thread's loop follows the call)
+    rb = [_src(n) for n in _body_nodoc(find("gateway_base.py", "Reply.run"))]
+    ok = ok and rb == ["func, args, kwargs = self.task", "try:\n    try:\n        self._result = func(*args, **kwargs)\n    except BaseException as exc:\n        self._exc = exc\nfinally:\n    self._result_ready.set()\n    self.running = False"]
     return "true" if ok else "false"
 
 
@@ -766,7 +788,7 @@ def _chan_receive_shape_ok():
         return "false"
     ok = t[0] == "itemqueue = self._items" and t[1].startswith("if itemqueue is None:\n    raise OSError(")
     tr = body[2]
-    ok = ok and isinstance(tr, ast.Try) and _src(tr.body) == "x = itemqueue.get(timeout=timeout)" and len(tr.handlers) == 1 and "queue.Empty" in _src(tr.handlers[0].type) and "raise self.TimeoutError" in _src(tr.handlers[0].body)
+    ok = ok and isinstance(tr, ast.Try) and _src(tr.body) == "x = itemqueue.get(timeout=timeout)" and len(tr.handlers) == 1 and "queue.Empty" in _src(tr.handlers[0].type) and "raise self.TimeoutError" in _src(tr.handlers[0].body) and len(tr.handlers[0].body) == 1   # an expired wait is a time-out and nothing else (no look at the closed flags: an item may arrive before them)
     ok = ok and t[3] == "if x is ENDMARKER:\n    itemqueue.put(x)\n    raise self._getremoteerror() or EOFError()\nelse:\n    return x"
     g = _src(find("gateway_base.py", "Channel._getremoteerror"))
     ok = ok and "self._remoteerrors.pop(0)" in g and "except IndexError" in g
